@@ -156,6 +156,16 @@ def obligations(tier, seed):
             hi = min(n, lo + step)
             obs.append(Ob("%s n=%d rho=%d..%d" % (label, n, lo, hi - 1), ob_rot_characterize, dict(fam, n=n, lo=lo, hi=hi),
                           samples=3, cost=n ** 3 * 3, group=label, expect_witness=("typed", "untyped")))
+    # user-defined classes over cutters that leave a 3' overhang (the structure has the other branch of every derivation)
+    for e, role in tier_pick(tier, [("BsrDI", "vector")], [("BsrDI", "vector"), ("BsrDI", "module"), ("BciVI", "vector"), ("BseRI", "module")]):
+        F = fixed_letters(generic_class(st_, role, e).structure())
+        n = F + 1
+        step = (n + chunks - 1) // chunks
+        for lo in range(0, n, step):
+            hi = min(n, lo + step)
+            obs.append(Ob("generic %s over %s (3' overhang) n=%d rho=%d..%d" % (role, e, n, lo, hi - 1), ob_rot,
+                          dict(src="generic", role=role, enzyme=e, n=n, F=F, lo=lo, hi=hi), samples=3, cost=n ** 3,
+                          group="3' overhang %s %s" % (role, e)))
     for params, pat, F in class_params(tier, seed):
         label = "%s.%s" % (params["kit"], params["cls"]) if params["src"] == "kit" else \
             "generic %s over %s" % (params["role"], params["enzyme"])
